@@ -154,6 +154,7 @@ def run(tier, seed):
         n_pairs += 1
     rep.extra['table_version_twins'] = n_pairs
     std.run_boundary(rep, tier, check_case)
+    std.run_named(rep, gmsg.wide_field_cases(tier), check_case, 'wide fields', 'field_wider_than_53_bits')
     # corpus
     stride = 20 if tier == 'quick' else 1
     items = corpusio.messages(stride=stride, offset=seed)
